@@ -1,3 +1,4 @@
+import YgmVerif.Model.Out
 /-
 Model of `serialize(fname)` / `deserialize(fname)` of the YGM containers
 (map_impl.hpp:248-271, set_impl.hpp:163-185, bag.ipp:166-191, counting_set.hpp:82-83)
@@ -211,6 +212,13 @@ def deserializeAll {E X K : Type} (d : Disc) (key : E → K) (lt : K → K → B
   List.zipWith (deserializeRank d key lt) imgs tgt
 
 /-! ## the rank files under one prefix (a prefix may be reused) -/
+
+/-- name of rank `r`'s file: `fname + std::to_string(m_comm.rank())` — plain decimal, no padding;
+`serialize` and `deserialize` build it with the same expression -/
+def rankFileName (fname : Bytes) (r : Nat) : Bytes := fname ++ YgmVerif.Out.dec r
+
+/-- the names `serialize` creates on `n` ranks -/
+def fileNames (fname : Bytes) (n : Nat) : List Bytes := (List.range n).map (rankFileName fname)
 
 /-- the files `fname ++ to_string(r)`: what each holds, if it exists -/
 abbrev Files (E X : Type) := Nat → Option (Image E X)
